@@ -11,8 +11,6 @@ sys.path.insert(0, HERE)
 
 ALL = ["C%02d" % i for i in range(1, 21)]
 NOT_APPLICABLE = {
-    "C02": "relates the text emitted for an arbitrary schema to that schema: deciding it statically means proving the "
-           "generator correct (translation validation of output values), not a property of code shape; see DESIGN §4/C02",
     "C08": "legality of a complex instance is computed at run time by a backtracking matcher over generated constraint "
            "trees; no structural clause establishes either direction of the 'if and only if'; see DESIGN §4/C08",
 }
